@@ -23,7 +23,18 @@ func init() {
 		var text strings.Builder
 		var schemas persister.WhisperSchemas
 		n := 0
+		var pendingDP []byte
+		havePendingDP := false
+		beforeCase = func() {
+			if havePendingDP {
+				emit("%s", hexs(pendingDP))
+				havePendingDP = false
+			}
+		}
 		scanLines(func(f []string, raw string) {
+			if f[0] != "dp" {
+				beforeCase()
+			}
 			switch f[0] {
 			case "schema":
 				text.Reset()
@@ -74,12 +85,17 @@ func init() {
 				}
 				emit("ok name=%s tags=%s interval=%d time=%d bits=%d org=%d", hexOrDash([]byte(md.Name)), strings.Join(tags, ","), md.Interval, md.Time, math.Float64bits(md.Value), md.OrgId)
 			case "dp":
+				// the message is printed after the NEXT one has been built (it sits in the connection's buffered writer
+				// meanwhile): a message that shares storage with a later one shows here
 				dp, err := destination.ParseDataPoint(unhexArg(f[1]))
 				if err != nil {
+					beforeCase()
 					emit("err")
 					return
 				}
-				emit("%s", hexs(destination.Pickle(dp)))
+				o := destination.Pickle(dp)
+				beforeCase()
+				pendingDP, havePendingDP = o, true
 			}
 		})
 	}
